@@ -58,7 +58,7 @@ AGENT = session_uuid(0, 3)
 SESSION = session_uuid(0, 1)
 A0, H0 = REGION_ADDRS[0], REGION_HANDLES[0]
 A1, H1 = ("10.0.0.7", 13007), (1007 << 40) | (1000 << 8)
-A2, H2 = ("10.0.0.8", 13008), (1008 << 40) | (1000 << 8)
+A2, H2 = ("10.0.0.7", 13008), (1008 << 40) | (1000 << 8)   # same host as A1, other port
 EQ_URL = cap_url(0, 0, "EventQueueGet")
 
 #: region-announcing kinds: name -> (wire kind, addr, handle, seed)
